@@ -759,7 +759,8 @@ void exhaustive_case(vf::ctx_t& c)
     const auto  nseeds = full ? int64_t{1025} : int64_t{65};
     const auto  total  = static_cast<int64_t>(pairs.size()) * nseeds;
     const auto  index  = c.index % total;
-    const auto [n, folds] = pairs[static_cast<size_t>(index / nseeds)];
+    // the largest lists first (the first cases are the ones sampled into the evidence)
+    const auto [n, folds] = pairs[pairs.size() - 1U - static_cast<size_t>(index / nseeds)];
     const auto slot       = index % nseeds;
     const auto seed       = full ? slot : static_cast<int64_t>((c.args.seed % 16 + 16 * static_cast<uint64_t>(slot)) % 1025);
 
